@@ -184,7 +184,7 @@ func init() {
 			return out
 		},
 		Families: []core.Family{
-			{Name: "cell-pairs", Count: n(4000, 40000), Run: func(c *core.Ctx, idx int) {
+			{Name: "cell-pairs", Count: n(4000, 300000), Run: func(c *core.Ctx, idx int) {
 				if hist.err != "" {
 					c.Inconclusive(hist.err)
 					return
@@ -198,7 +198,7 @@ func init() {
 				c.Nontrivial(fmt.Sprint(c.Worker%4), fmt.Sprint(calls))
 				c.Count("pair:" + hist.names[pair/k] + "->" + hist.names[pair%k])
 			}},
-			{Name: "random-histories", Count: n(320, 6000), Run: func(c *core.Ctx, idx int) {
+			{Name: "random-histories", Count: n(320, 30000), Run: func(c *core.Ctx, idx int) {
 				if hist.err != "" {
 					c.Inconclusive(hist.err)
 					return
